@@ -140,8 +140,11 @@ class Tracer:
                         self.emit('abort %d' % cm['i'], 'ok')
                         self.pending[cm['i']] = {}
                 cm['phase'] = 'aborted'
-            elif ph == 'finishing' and kind == 'release' and role == R.get('storage') \
-                    and self.st._lock.owner is None:
+            elif ph == 'finishing' and ((kind == 'release' and role == R.get('storage')
+                                         and self.st._lock.owner is None) or
+                                        (kind == 'notify' and R.get('pool') and role == R['pool'])):
+                # the data is loadable: the storage lock is free again, or (DemoStorage shares the lock
+                # of its changes storage and still holds it) the FilePool writer lets the readers in
                 self.emit('publish', 'ok')
                 if cm['i'] == 'x':
                     self.log.append((cm['tid'], dict(cm.get('writes', {}))))
